@@ -65,6 +65,30 @@ def find_item(src: str, m: str, spec: str, file: str) -> Item:
         base_spec, sel = ms.group(1).strip(), int(ms.group(2))
     kind, _, name = base_spec.partition(" ")
     name = name.strip()
+    if kind == "closure":
+        # `closure OWNER::FN#k as NAME` (k-th closure, 1-based, in the body of fn OWNER::FN):
+        # the closure is lifted to a named function; its parameter list and return type are
+        # declared in unit.toml (`sig`), the body text is copied verbatim (rule R19).
+        mm = re.match(r"(.+?)#(\d+)\s+as\s+(\w+)$", spec[len("closure"):].strip())
+        if not mm:
+            raise LostAnchor("bad closure spec `%s`" % spec)
+        host = find_item(src, m, "fn " + mm.group(1), file)
+        k = int(mm.group(2))
+        hm = L.mask(host.text)
+        fp = L.FnParts(host.text)
+        cl = L.find_closures(hm, fp.body_open + 1, fp.body_close)
+        if k > len(cl):
+            raise LostAnchor("%s: closure #%d of %s not found" % (file, k, mm.group(1)))
+        c = cl[k - 1]
+        bs, be = c["body"]
+        body = host.text[bs:be]
+        if not c["braced"]:
+            body = "{ " + body + " }"
+        params = host.text[c["bars"][0] + 1:c["bars"][1] - 1].strip()
+        line = host.line + host.text.count("\n", 0, c["bars"][0])
+        it = Item(spec, "closure", mm.group(3), body, file, line)
+        it.closure_params = params
+        return it
     if kind == "fn":
         trait = None
         owner = None
